@@ -19,3 +19,4 @@ for c in $CHECKS; do
   echo "   $c -> $R"
 done
 git -C /repo checkout -- .
+git -C /verif checkout -- evidence 2>/dev/null
